@@ -430,6 +430,10 @@ func (p *parser) parseSwitchStatement() ast.Statement {
 		}
 		node.Body = append(node.Body, clause)
 	}
+	if node.RightBrace == 0 {
+		// The input ended inside the case block.
+		p.expect(token.RIGHT_BRACE)
+	}
 
 	if p.mode&StoreComments != 0 {
 		p.comments.CommentMap.AddComments(node, comments, ast.LEADING)
